@@ -40,6 +40,8 @@ func main() {
 		os.Exit(runC12(*tier))
 	case "C19":
 		os.Exit(runC19(*tier))
+	case "C14":
+		os.Exit(runC14(*tier))
 	}
 	fmt.Println("INFRA: unknown property", *prop)
 	os.Exit(2)
@@ -284,5 +286,66 @@ func runC19(tier string) int {
 	col.Set("rule", "state = (store dump, synced positions, receiver log tail since the last snapshot, snapshot image); transitions = deliver source entry i of cluster A or B for every i <= position+1 (stale re-sends, duplicates), overlapping batches [i..j] in one apply batch, one 'middle proposal dropped' delivery of position+2, snapshot (store dump + serialised positions as KVNode.GetSnapshot stores them), restart (restore the image, replay the own log tail with isReplaying=true); each delivery goes through the real KVNode.applyEntry; oracle: data = source prefix applied once each in order and equal to the synced index, position monotone, restart reproduces data and position")
 	col.Sample(map[string]interface{}{"source_log": "5 entries per source cluster, each APPEND <entry number> to one key, one term change, strictly increasing timestamps", "path": []string{"deliver A#1", "deliver A#1", "deliver-batch A#1..3", "snapshot", "deliver A#4", "restart"}})
 	col.Assume = []string{"apply seam: the receive-time filter and raft proposal of Server.ApplyRaftReqs are not on this path", "source timestamps strictly increase (equal timestamps are handled by the documented conflict check)"}
+	return col.Finish()
+}
+
+func runC14(tier string) int {
+	quick := tier == "quick"
+	col := ev.NewCollector("C14", tier, "exploration")
+	dl := ev.NewDeadline(ev.EnvDur("VERIF_BUDGET", map[bool]time.Duration{true: 150 * time.Second, false: 20 * time.Minute}[quick]))
+	type run struct {
+		eng    string
+		maxLen int
+		pool   [][]string
+		other  bool
+	}
+	runs := []run{{"mem-skiplist", 3, storemc.BackupPool[:8], true}, {"pebble", 2, storemc.BackupPool, true}}
+	if !quick {
+		runs = []run{{"mem-skiplist", 4, storemc.BackupPool, true}, {"pebble", 3, storemc.BackupPool, true}, {"mem-btree", 3, storemc.BackupPool, false}, {"rocksdb", 2, storemc.BackupPool[:8], true}}
+	}
+	var mu sync.Mutex
+	var wg sync.WaitGroup
+	cases, restores, hist := 0, 0, 0
+	exhaustive := true
+	per := map[string]interface{}{}
+	for _, r := range runs {
+		for _, p := range policies {
+			if r.eng != "mem-skiplist" && r.eng != "pebble" && p.name != "wait_compact" {
+				continue
+			}
+			wg.Add(1)
+			go func(r run, p pol) {
+				defer wg.Done()
+				label := r.eng + "/" + p.name
+				t0 := time.Now()
+				opt := storemc.Options{Engine: r.eng, Policy: p.p, DataVer: p.v, Leader: true, EngineWAL: true, KeepBackup: 4}
+				st, ok := storemc.RunBackups(opt, col, label, r.pool, r.maxLen, r.other, dl)
+				opt.KeepBackup = 2
+				pc := storemc.RunPurge(opt, col, label)
+				mu.Lock()
+				cases += st.Cases + pc
+				restores += st.Restores
+				hist += st.Histories
+				if !ok {
+					exhaustive = false
+				}
+				per[label] = map[string]interface{}{"histories": st.Histories, "max_len": r.maxLen, "backup_restore_cases": st.Cases, "restores": st.Restores, "purge_cases": pc, "complete": ok, "wall_s": time.Since(t0).Seconds()}
+				mu.Unlock()
+				fmt.Printf("[C14] %s: histories=%d (len<=%d) cases=%d restores=%d purge-cases=%d complete=%v %.1fs\n", label, st.Histories, r.maxLen, st.Cases, st.Restores, pc, ok, time.Since(t0).Seconds())
+			}(r, p)
+		}
+		if r.eng == "mem-skiplist" || r.eng == "mem-btree" {
+			wg.Wait() // the mem variant is a process-wide switch
+		}
+	}
+	wg.Wait()
+	col.Set("evaluations", cases)
+	col.Set("distinct_nontrivial", hist)
+	col.Set("restores", restores)
+	col.Set("exhaustive", exhaustive)
+	col.Set("per_store", per)
+	col.Set("rule", "every command history up to the length bound from a pool with every data type, a counter, HyperLogLog adds, a TTL command, deletes and clears x every 0<=i<j<=n: apply [0,i), real RockDB.Backup, apply [i,j), real Restore (twice), re-apply [i,j); plus restore on another store after copying the checkpoint directory; oracle: logical view and physical dump after restore = recorded at the backup, replay after restore = state before the restore, every file of the checkpoint byte-identical (sha256) after later writes and restores; purge: KeepBackup=2 with the raft snapshot index recorded at 1..6 over 8 consecutive backups: the recorded checkpoint and all newer ones exist. non-trivial = distinct histories")
+	col.Sample(map[string]interface{}{"pool": storemc.BackupPool})
+	col.Sample(map[string]interface{}{"case": "history [incr c, pfadd p e1, hset h a 1], i=1, j=3: backup after incr; pfadd+hset; restore -> c=1, no hll, no hash; re-apply -> c=1, hll(e1), h={a:1}"})
 	return col.Finish()
 }
